@@ -50,7 +50,7 @@ def run(pid, tier, seed):
             recorder.install(typer)
             ref_logger, _, _, _, _ = tracerun.run_traced(lambda: programs.run_workload(mod, steps), admit, tbl, k, rate=None, rng_seed=1)
             ctr = lambda x: None if x is None else sexp.dumps(tyconv.canon(tyconv.ty_to_tree(x, tbl)))
-            ref = [(t.func.__qualname__, tuple(sorted((n, ctr(v)) for n, v in t.arg_types.items())), ctr(t.return_type), ctr(t.yield_type))
+            ref = [(t.func.__code__.co_qualname, tuple(sorted((n, ctr(v)) for n, v in t.arg_types.items())), ctr(t.return_type), ctr(t.yield_type))
                    for t in ref_logger.traces]
             for rate in RATES:
                 for rs in range(2 if quick else 6):
@@ -71,11 +71,11 @@ def run(pid, tier, seed):
                         return sexp.dumps(tyconv.canon(("union",) + tuple(sexp.loads(t) for t in trees)))
                     truth = c02.expected_from_recorder(rec, tbl, union)
                     ct = lambda x: None if x is None else sexp.dumps(tyconv.canon(tyconv.ty_to_tree(x, tbl)))
-                    got = [{"qualname": t.func.__qualname__,
+                    got = [{"qualname": t.func.__code__.co_qualname,
                             "args": {n: ct(v) for n, v in t.arg_types.items() if n not in c02.IGNORED_PARAMS},
                             "ret": ct(t.return_type), "yield": ct(t.yield_type)} for t in logger.traces]
                     want = [{kk: e[kk] for kk in ("qualname", "args", "ret", "yield")} for e in truth]
-                    mine = [(t.func.__qualname__, tuple(sorted((n, ctr(v)) for n, v in t.arg_types.items())), ctr(t.return_type), ctr(t.yield_type))
+                    mine = [(t.func.__code__.co_qualname, tuple(sorted((n, ctr(v)) for n, v in t.arg_types.items())), ctr(t.return_type), ctr(t.yield_type))
                             for t in logger.traces]
                     if not subsequence(mine, ref):
                         bad = next((g for g in mine if g not in ref), None)
